@@ -33,6 +33,73 @@ def digests(props, n, seed):
     return out
 
 
+def shim_selfcheck():
+    """The look-alikes of the stdlib blocking primitives must behave like the originals in the cases the worlds rely on:
+    a small scripted scenario per primitive, under several seeded schedules, with known outcomes."""
+    from . import sched as S
+    from .shims import SimCondition, SimEvent, SimSemaphore, SimThreadObj, SimLock, _SimQueue
+    problems = []
+    for seed in range(40):
+        sch = S.Sched(seed=seed, strategy=('uniform',) if seed % 2 else ('sticky', 0.3), step_cap=20000)
+        out = {'woken': [], 'timed_out': 0, 'sem': 0, 'ev': None, 'q': []}
+
+        def main():
+            cond = SimCondition(SimLock())
+            state = {'tickets': 0}
+
+            def waiter(name, timeout):
+                with cond:
+                    while state['tickets'] == 0:
+                        if not cond.wait(timeout) and timeout is not None and state['tickets'] == 0:
+                            out['timed_out'] += 1
+                            return
+                    state['tickets'] -= 1
+                    out['woken'].append(name)
+            ws = [SimThreadObj(target=waiter, args=('a', None)), SimThreadObj(target=waiter, args=('b', 0.25)),
+                  SimThreadObj(target=waiter, args=('c', None))]
+            for w in ws:
+                w.start()
+            sch.sleep(1.0)              # b's deadline passes first: its leaving must not take anybody else's place in line
+            for _ in range(2):
+                with cond:
+                    state['tickets'] += 1
+                    cond.notify()
+                sch.sleep(0.125)
+            for w in ws:
+                w.join(5.0)
+                if w.is_alive():
+                    problems.append(f'seed {seed}: condition waiter {w.name} never woke')
+            sem = SimSemaphore(2)
+            ev = SimEvent()
+            q = _SimQueue()
+
+            def worker(i):
+                with sem:
+                    out['sem'] = max(out['sem'], 2 - sem._value)
+                    sch.sleep(0.125)
+                q.put(i)
+                if i == 2:
+                    ev.set()
+            ts = [SimThreadObj(target=worker, args=(i,)) for i in range(3)]
+            for t in ts:
+                t.start()
+            out['ev'] = ev.wait(5.0)
+            for t in ts:
+                t.join()
+            out['q'] = sorted(q.get(timeout=1.0) for _ in range(3))
+            out['ev_timeout'] = SimEvent().wait(0.25)
+        try:
+            sch.run(main)
+        except S.Abort as e:
+            problems.append(f'seed {seed}: {type(e).__name__}')
+            continue
+        if sorted(out['woken']) != ['a', 'c'] or out['timed_out'] != 1:
+            problems.append(f'seed {seed}: condition woke {out["woken"]}, timed out {out["timed_out"]}')
+        if out['sem'] > 2 or out['ev'] is not True or out['q'] != [0, 1, 2] or out['ev_timeout'] is not False:
+            problems.append(f'seed {seed}: semaphore/event/queue {out}')
+    return problems
+
+
 def main():
     args = sys.argv[1:]
     if '--emit' in args:
@@ -53,6 +120,12 @@ def main():
     seed = int(os.environ.get('VERIF_SEED', runner.DEFAULT_SEED))
     assert sys.version_info >= (3, 12), sys.version_info
     env.aiuti()
+    probs = shim_selfcheck()
+    if probs:
+        for x in probs[:10]:
+            print('  SHIM', x)
+        print(f'SELFTEST: {len(probs)} problem(s) in the stand-ins for stdlib blocking primitives')
+        sys.exit(2)
     a = digests(props, n, seed)
     b = digests(props, n, seed)
     envv = dict(os.environ)
